@@ -26,6 +26,7 @@ void Sim::reset() {
 	cur_state = 0;
 	fs = nullptr;
 	fds.clear();
+	next_fd = 1000000;
 	streams.clear();
 	open_handles = 0;
 	write_fail_at = -1;
